@@ -248,3 +248,11 @@ func (m *RWMutex) RUnlock() { m.mu.RUnlock(); maybeYield() }
 // and Output prints a line.
 func Input() string   { return os.Getenv("VERIF_INPUT") }
 func Output(s string) { fmt.Println("ZZOUT " + s) }
+
+// UnwindIsViolation: from here on, exceeding the instruction budget is the
+// violation id (termination is part of the property).
+func UnwindIsViolation(id string) {}
+
+// MaxDecisions bounds the number of symbolic decisions on a path (an
+// unwinding bound for loops whose every iteration branches on symbolic data).
+func MaxDecisions(n int) {}
